@@ -162,3 +162,30 @@ func VfH_C09_font_composite() {
 	vfCover("parsed", true)
 	vfReach("end")
 }
+
+// H-C09-font-gvar-points: gvar.applyDeltasToPoints with tuple variations as parseGlyphVariationSerializedData
+// can return them: explicit point numbers that are NOT checked against the glyph's point count, or "all
+// points" deltas. The glyph has 1..3 outline points plus the 4 phantom points.
+func VfH_C09_font_gvar_points() {
+	nPoints := 1 + vfChoice("nPoints", 3)
+	points := make([]contourPoint, nPoints+phantomCount)
+	points[nPoints-1].isEndPoint = true
+	var tv tupleVariation
+	tv.PeakTuple.Values = []tables.Coord{1000}
+	if vfBool("explicitPoints") {
+		np := 1 + vfChoice("nNumbers", 2)
+		for i := 0; i < np; i++ {
+			tv.pointNumbers = append(tv.pointNumbers, vfU16("pointNumber"))
+		}
+		tv.deltas = make([]int16, 2*np)
+	} else {
+		// deltas for "all points": the loader sizes them with the same point count the query uses
+		tv.deltas = make([]int16, 2*len(points))
+	}
+	for i := range tv.deltas {
+		tv.deltas[i] = int16(1 + i%2) // the values do not matter for totality
+	}
+	g := gvar{variations: [][]tupleVariation{{tv}}}
+	g.applyDeltasToPoints(0, []VarCoord{1000}, points)
+	vfReach("end")
+}
